@@ -538,4 +538,38 @@ def c02_j(ctx: Ctx):
     return out
 
 
-RULES = [c02_a, c02_b, c02_c, c02_d, c02_e, c02_f, c02_g, c02_h, c02_i, c02_j]
+@rule("C02-k")
+def c02_k(ctx: Ctx):
+    """The command line resolves (abbreviated) ids through Project.open_job(id=...) and keeps its two failures apart by the exception *type*: KeyError (no such job)
+    is handled before - and separately from - LookupError (ambiguous prefix); the kind of failure is not re-derived from the length of the id."""
+    R = "C02-k"
+    f = ctx.prog.funcs.get("signac.__main__:_open_job_by_id")
+    k = "signac.__main__:_open_job_by_id|failure-kinds"
+    if f is None:
+        return [ctx.inc(R, None, None, "_open_job_by_id not found", construct=k)]
+    opens = [c for c in body_nodes(f) if isinstance(c, ast.Call) and isinstance(c.func, ast.Attribute) and c.func.attr == "open_job"]
+    if not opens:
+        return [ctx.inc(R, f, f.node, "no open_job call", construct=k)]
+    pm = ctx.parents(f)
+    cur = pm.get(id(opens[0]))
+    tr = None
+    while cur is not None:
+        if isinstance(cur, ast.Try):
+            tr = cur
+            break
+        cur = pm.get(id(cur))
+    if tr is None:
+        return [ctx.inc(R, f, opens[0], "open_job is not inside a try", construct=k)]
+    types = []
+    for h in tr.handlers:
+        ts = [dotted(t) or "" for t in (h.type.elts if isinstance(h.type, ast.Tuple) else [h.type])] if h.type is not None else ["<bare>"]
+        types.append(ts)
+    first_key = next((i for i, ts in enumerate(types) if ts == ["KeyError"]), None)
+    first_lookup = next((i for i, ts in enumerate(types) if any(t in ("LookupError", "Exception", "<bare>", "BaseException") for t in ts)), None)
+    if first_key is None or (first_lookup is not None and first_lookup < first_key):
+        return [ctx.viol(R, f, tr, f"the failures of open_job(id=...) are handled by {types}: 'no job with this id' (KeyError) is not handled on its own before the ambiguity (LookupError), "
+                         "so an abbreviated id that matches nothing is reported as ambiguous (or the other way round)", construct=k)]
+    return [ctx.ok(R, f, tr, "KeyError (unknown id) is handled before and apart from LookupError (ambiguous prefix)", construct=k)]
+
+
+RULES = [c02_a, c02_b, c02_c, c02_d, c02_e, c02_f, c02_g, c02_h, c02_i, c02_j, c02_k]
